@@ -56,13 +56,17 @@ def parse_grid(grid_str):
     meta = parsed.pop('meta')
     # Decode version
     version = Version(meta.pop('ver'))
+    grid_version = version
+    # The grid content follows the rules of the nearest official version,
+    # which is what the grid itself and the ZINC parser apply to this label.
+    version = Version.nearest(version)
 
     # Parse the remaining elements
     metadata = {}
     for name, value in meta.items():
         metadata[name] = parse_embedded_scalar(value, version=version)
 
-    grid = Grid(version=version, metadata=metadata)
+    grid = Grid(version=grid_version, metadata=metadata)
 
     # Grab the columns in the order given
     for col in parsed.pop('cols'):
